@@ -22,6 +22,9 @@ import mpi_algebra_common as A
 from mpi_algebra_common import U, PN
 
 LEVEL = "model_checking"
+META = {"text": "TLC evaluates the group / communicator algebra of MPI-3.1 chapter 6 written as TLA+ operators over duplicate-free sequences of world ranks (spec/mpi/MpiGroup.tla: union, intersection, difference ordered as in the first group, incl, excl, range_incl/excl, translate_ranks, compare, Comm_split ordered by key then old rank, Comm_dup, Comm_create, per-context message delivery), exhaustively for worlds of 1..4 ranks (1..3 for every operation and 4 for the set operations, incl/excl and dup in the quick tier) and on a seeded sample of worlds up to 12; the laws of the definitions are invariants checked on every generated case; every rank of an smpirun of that size performs the same calls and its view (members through translate_ranks, sizes, ranks, comparison results, received messages) is compared with TLC's values.",
+        "note": "Trusted: TLC, MpiGroup.tla, the observation of group contents through MPI_Group_translate_ranks/size/rank. Conformance holds for the cases replayed; exhaustive only within the stated world sizes. 'Messages never cross communicators' is exercised on (communicator, duplicate) pairs with equal tags only (general matching belongs to C28). Known finding: MPI_Group_intersection orders its result as the second group.",
+        "technique": "TLC exhaustive small scope + -simulate over MpiGroup (case and oracle generation, laws as invariants), replay into SMPI on every rank (harness/mpi_algebra.cpp), comparison in Python"}
 DRIVERS = A.DRIVERS
 ALL_KINDS = ["setop", "incl", "excl", "create", "rincl", "rexcl", "split", "dup"]
 
